@@ -758,8 +758,19 @@ def latched_agents(R):
     request with an authentic notInTimeWindow report (RFC 3414 3.2 (7a)): each datagram
     is perfectly well-formed, and the call still has to end - after a bounded number of
     requests and steps - and so does the next one on the same client."""
-    for level in rig.AUTH_LEVELS:
-        w = World(level, DB, agent_kwargs={"boots": 2**31 - 1})
+    for level, drift in [(lv, d) for d in (False, True) for lv in rig.AUTH_LEVELS]:
+        agent_clock = env.Clock()
+        agent_clock.now = 1_000_000.0
+        w = World(level, DB, agent_kwargs={"boots": 2**31 - 1}, clock=agent_clock)
+        if drift:
+            # the engine's clock moves on by a second with every datagram it handles, so
+            # no two of its reports carry the same engine time: each one is "news"
+            def responder(data, inner=w.agent.handle, clock=agent_clock):
+                clock.now += 1.0
+                return inner(data)
+
+            w.set_responder(responder)
+            R.mon["latched_engines_with_a_drifting_clock"] += 1
         for attempt in range(3):
             w.seam.reset(budget=12)
             tracemalloc.reset_peak()
@@ -771,7 +782,7 @@ def latched_agents(R):
             R.evaluations += 1
             R.mon["latched_engine_calls"] += 1
             case = {"level": level, "mode": "latched-engine", "fault": "every answer is an authentic notInTimeWindow report", "pos": attempt, "variant": "agent", "datagram": "len:0", "len": 0}
-            R.fingerprints.add("%s/latched/%d" % (level, attempt))
+            R.fingerprints.add("%s/latched/%d/%d" % (level, attempt, drift))
             if kind == "over":
                 R.violation(case, "more than %d logical steps against an engine that keeps answering notInTimeWindow (%d requests so far)" % (8 * Target.A, nreq), None)
                 break
